@@ -78,4 +78,57 @@ theorem decodeOne_encKey (key val : Bytes) (flags ts : Nat) (h1 : 1 ≤ key.leng
     rfl
   rw [this]
 
+/-- everything `encodeAllAux` guarantees when it accepts (helper of C20_encode_all) -/
+theorem encodeAllAux_spec (prev : Bytes) (l r : List KV) (h : encodeAllAux prev l = .ok r) :
+    r.length = l.length ∧
+    (∀ x ∈ r, bcmp prev x.key < 0) ∧
+    List.Pairwise (fun a b => bcmp a.key b.key < 0) r ∧
+    decodeAll r = .ok (l.map fun e => { e with ts := 0 }) ∧
+    (∀ e ∈ l, 1 ≤ e.key.length ∧ e.key.length ≤ 255) := by
+  induction l generalizing prev r with
+  | nil =>
+    simp only [encodeAllAux] at h; injection h with h; subst h
+    simp [decodeAll]
+    rfl
+  | cons e rest ih =>
+    simp only [encodeAllAux] at h
+    split at h
+    · cases h
+    · rename_i kv hkv
+      split at h
+      · cases h
+      · split at h
+        · cases h
+        · split at h
+          · cases h
+          · rename_i hne hngt r' hr'
+            injection h with h; subst h
+            obtain ⟨hlen, hprev, hpw, hdec, hkeys⟩ := ih kv.key r' hr'
+            have hlt : bcmp prev kv.key < 0 := by omega
+            have hk : 1 ≤ e.key.length ∧ e.key.length ≤ 255 := by
+              by_cases hh : 1 ≤ e.key.length ∧ e.key.length ≤ 255
+              · exact hh
+              · obtain ⟨err, he⟩ := encodeOne_refuse e (by omega)
+                rw [he] at hkv; cases hkv
+            have hkv' := encodeOne_ok e hk.1 hk.2
+            rw [hkv'] at hkv; injection hkv with hkv
+            refine ⟨by simp [hlen], ?_, ?_, ?_, ?_⟩
+            · intro x hx
+              rcases List.mem_cons.mp hx with hx | hx
+              · subst hx; exact hlt
+              · have := hprev x hx
+                exact bcmp_lt.mpr (List.lt_trans (bcmp_lt.mp hlt) (bcmp_lt.mp this))
+            · exact List.pairwise_cons.mpr ⟨hprev, hpw⟩
+            · have hd := decodeOne_encKey e.key e.val e.flags 0 hk.1 hk.2
+              rw [← hkv]
+              simp only [decodeAll, List.mapM_cons, List.map_cons] at hdec ⊢
+              rw [hd]
+              rw [show (List.mapM decodeOne r') = _ from hdec]
+              rfl
+            · intro e' he'
+              rcases List.mem_cons.mp he' with he' | he'
+              · subst he'; exact hk
+              · exact hkeys e' he'
+
+
 end Ls.DupSort
